@@ -43,20 +43,20 @@ theorem bec2_read_write (env : Env) (hC : CryptoInv env.C) (hE : EccLaws env.E) 
     (f : File) (ext : List Encryptor) (ephs ephs' : List Nat) (out : Bytes) (chk : Bool)
     (hsk : f.key.length = 16) (hne : f.blocks ≠ []) (hopen : ∀ b ∈ f.blocks, Opens ext b)
     (hnd : (f.blocks.map AuthBlock.tag).Nodup) (hok : ∀ c ∈ f.comps, CompOK env.C f.key c)
-    (h : Bec2.toBinary env f ext ephs = .ok (out, ephs')) :
-    Bec2.readBinary env ext chk out =
+    (h : Bec2.toBinary env f ext ephs = .ok (out, ephs')) (ρ : Bytes) :
+    Bec2.readBinary env ext chk out ρ =
       (readBackAll env.C f.key f.comps).map (fun cs => { comps := cs, blocks := f.blocks, key := f.key }) :=
-  readBinary_toBinary env hC hE hm f ext ephs ephs' out chk hsk hne hopen hnd hok h
+  readBinary_toBinary env hC hE hm f ext ephs ephs' out chk hsk hne hopen hnd hok h ρ
 
 /-- with plain components only the file object is returned unchanged -/
 theorem bec2_read_write_plain (env : Env) (hC : CryptoInv env.C) (hE : EccLaws env.E) (hm : MacLen env.C)
     (f : File) (ext : List Encryptor) (ephs ephs' : List Nat) (out : Bytes) (chk : Bool)
     (hsk : f.key.length = 16) (hne : f.blocks ≠ []) (hopen : ∀ b ∈ f.blocks, Opens ext b)
     (hnd : (f.blocks.map AuthBlock.tag).Nodup) (hpl : ∀ c ∈ f.comps, Props.C01.PlainWF c)
-    (h : Bec2.toBinary env f ext ephs = .ok (out, ephs')) :
-    Bec2.readBinary env ext chk out = .ok f := by
+    (h : Bec2.toBinary env f ext ephs = .ok (out, ephs')) (ρ : Bytes) :
+    Bec2.readBinary env ext chk out ρ = .ok f := by
   rw [bec2_read_write env hC hE hm f ext ephs ephs' out chk hsk hne hopen hnd
-    (fun c hc => Props.C01.plain_compOK env.C f.key c (hpl c hc)) h,
+    (fun c hc => Props.C01.plain_compOK env.C f.key c (hpl c hc)) h ρ,
     Props.C01.readBackAll_plain env.C f.key f.comps hpl]
   rfl
 
@@ -71,11 +71,11 @@ theorem bec2_read_write_aes (E : Ecc) (hE : EccLaws E) (sha : Bytes → Bytes)
     (f : File) (ext : List Encryptor) (ephs ephs' : List Nat) (out : Bytes) (chk : Bool)
     (hsk : f.key.length = 16) (hne : f.blocks ≠ []) (hopen : ∀ b ∈ f.blocks, Opens ext b)
     (hnd : (f.blocks.map AuthBlock.tag).Nodup) (hok : ∀ c ∈ f.comps, CompOK aesCrypto f.key c)
-    (h : Bec2.toBinary { C := aesCrypto, E := E, sha := sha } f ext ephs = .ok (out, ephs')) :
-    Bec2.readBinary { C := aesCrypto, E := E, sha := sha } ext chk out =
+    (h : Bec2.toBinary { C := aesCrypto, E := E, sha := sha } f ext ephs = .ok (out, ephs')) (ρ : Bytes) :
+    Bec2.readBinary { C := aesCrypto, E := E, sha := sha } ext chk out ρ =
       (readBackAll aesCrypto f.key f.comps).map (fun cs => { comps := cs, blocks := f.blocks, key := f.key }) :=
   bec2_read_write { C := aesCrypto, E := E, sha := sha } Props.C16.aes_plugin_instance.1 hE
-    Props.C16.aes_plugin_instance.2 f ext ephs ephs' out chk hsk hne hopen hnd hok h
+    Props.C16.aes_plugin_instance.2 f ext ephs ephs' out chk hsk hne hopen hnd hok h ρ
 
 /-- **the shipped configuration** (bundled AES, ECC plug-in on P-256, SHA-256): the file theorem with every named
 hypothesis discharged -/
@@ -83,11 +83,11 @@ theorem bec2_read_write_shipped
     (f : File) (ext : List Encryptor) (ephs ephs' : List Nat) (out : Bytes) (chk : Bool)
     (hsk : f.key.length = 16) (hne : f.blocks ≠ []) (hopen : ∀ b ∈ f.blocks, Opens ext b)
     (hnd : (f.blocks.map AuthBlock.tag).Nodup) (hok : ∀ c ∈ f.comps, CompOK P256.env.C f.key c)
-    (h : Bec2.toBinary P256.env f ext ephs = .ok (out, ephs')) :
-    Bec2.readBinary P256.env ext chk out =
+    (h : Bec2.toBinary P256.env f ext ephs = .ok (out, ephs')) (ρ : Bytes) :
+    Bec2.readBinary P256.env ext chk out ρ =
       (readBackAll P256.env.C f.key f.comps).map (fun cs => { comps := cs, blocks := f.blocks, key := f.key }) :=
   bec2_read_write P256.env Props.C16.aes_plugin_instance.1 P256C.p256_eccLaws Props.C16.aes_plugin_instance.2
-    f ext ephs ephs' out chk hsk hne hopen hnd hok h
+    f ext ephs ephs' out chk hsk hne hopen hnd hok h ρ
 
 /-- **`Bec2File.read_file ∘ write_file = id` for the shipped configuration, text envelope included**: comments, session
 key, auth blocks and plain components come back unchanged -/
@@ -95,13 +95,13 @@ theorem bec2_readFile_writeFile_shipped (cs : List (Text.Str × Text.Str)) (hcs 
     (f : File) (ext : List Encryptor) (ephs ephs' : List Nat) (out : Bytes) (chk : Bool)
     (hsk : f.key.length = 16) (hne : f.blocks ≠ []) (hopen : ∀ b ∈ f.blocks, Opens ext b)
     (hnd : (f.blocks.map AuthBlock.tag).Nodup) (hpl : ∀ c ∈ f.comps, Props.C01.PlainWF c)
-    (h : Bec2.toBinary P256.env f ext ephs = .ok (out, ephs')) :
-    Entry.readBec2 P256.env ext chk (Text.writeText cs out) = .ok (cs, f) := by
+    (h : Bec2.toBinary P256.env f ext ephs = .ok (out, ephs')) (ρ : Bytes) :
+    Entry.readBec2 P256.env ext chk (Text.writeText cs out) ρ = .ok (cs, f) := by
   unfold Entry.readBec2
   rw [Text.parseText_writeText cs out hcs]
   simp only [bind, Except.bind]
   rw [bec2_read_write_plain P256.env Props.C16.aes_plugin_instance.1 P256C.p256_eccLaws Props.C16.aes_plugin_instance.2
-    f ext ephs ephs' out chk hsk hne hopen hnd hpl h]
+    f ext ephs ephs' out chk hsk hne hopen hnd hpl h ρ]
 
 /-- non-vacuity: a decryptor list that opens a customer-key, an ECC (selector 2) and an update block -/
 example : ∀ b ∈ [AuthBlock.initCust, .initEcc 2, .update [1,2,3,4,5,6,7,8] 255],
